@@ -103,4 +103,27 @@ def depsJustifiedB (init : Queue) : List Access → List Access → List (List D
 def histSpecB (init : Queue) (h : List Access) (dss : List (List Dep)) : Bool :=
   histOrderedB (h.length + 1) (depsEdges h dss) h && depsJustifiedB init [] h dss
 
+/-! ### Exact characterisation of what the queue reports (history level) -/
+
+def NoWriteOn (r : Nat) (l : List Access) : Prop := ∀ a ∈ l, a.res = r → a.kind.isWrite = false
+
+/-- `d` is the most recent write/capture of region `r` in the history `h` -/
+def IsLastWrite (h : List Access) (r : Nat) (d : Dep) : Prop :=
+  d.kind.isWrite = true ∧ ∃ pre post, h = pre ++ (⟨d.node, r, d.kind⟩ : Access) :: post ∧ NoWriteOn r post
+
+/-- node `n` read region `r` after the most recent write of `r` in `h` -/
+def ReadSince (h : List Access) (r : Nat) (n : Node) : Prop :=
+  ∃ pre post, h = pre ++ (⟨n, r, .read⟩ : Access) :: post ∧ NoWriteOn r post
+
+/-- the dependencies an access `a` must report after the history `pre`: the most recent writer of its region
+(or the initial writer if the region was never written), and — if `a` is a write/capture — every read since -/
+def ExactDeps (init : Queue) (pre : List Access) (a : Access) (ds : List Dep) : Prop :=
+  ∀ d, d ∈ ds ↔ ((IsLastWrite pre a.res d ∨ (init.write = some d ∧ NoWriteOn a.res pre)) ∨
+    (a.kind.isWrite = true ∧ d.kind = .read ∧ ReadSince pre a.res d.node))
+
+def AllExact (init : Queue) : List Access → List Access → List (List Dep) → Prop
+  | pre, a :: h, ds :: dss => ExactDeps init pre a ds ∧ AllExact init (pre ++ [a]) h dss
+  | _, [], [] => True
+  | _, _, _ => False
+
 end QV.C23
